@@ -107,7 +107,8 @@ func runC19(c *Ctx) {
 					return
 				}
 				for _, r := range *rs {
-					rc, have := s.RC[r.Block()]
+					_, have := s.RC[r.Block()]
+					rc := s.RCAt(r)
 					if !have {
 						continue
 					}
